@@ -259,3 +259,22 @@ def ulp_neighbours(p, ks=(1, 2, 4)):
                 q = np.nextafter(q, sgn * np.inf)
             out.append(q)
     return out
+
+
+def cylseg_coincidence_dist(spec, P_local):
+    """relative distance (in units of the segment's size) of local points from the nearest coincidence set of a
+    CylinderSegment: the cylinders r = r1, r2, the planes z = +-h/2, the two side planes through the axis
+    (phi = phi1, phi2 and their continuation beyond the axis); the axis itself is the near-axis finding's business
+    and is NOT included.  Next to these sets (on the magnet or on their extension far from it) the library's
+    closed form loses digits like 1/d^2."""
+    P = np.atleast_2d(np.asarray(P_local, float))
+    r1, r2, h, p1, p2 = spec["dimension"]
+    size = max(2 * r2, h)
+    r = np.hypot(P[:, 0], P[:, 1])
+    ph = np.arctan2(P[:, 1], P[:, 0])
+    d = [np.abs(r - r2), np.abs(P[:, 2] - h / 2), np.abs(P[:, 2] + h / 2)]
+    if r1 > 0:
+        d.append(np.abs(r - r1))
+    for a in (p1, p2):
+        d.append(np.abs(r * np.sin(ph - np.deg2rad(a))))
+    return np.min(np.array(d), axis=0) / size
